@@ -126,7 +126,7 @@ func runCmdWorld(w *simrt.World, orig func()) {
 						simrt.Hit("twin.panicked")
 					}
 				}()
-				err := ownInvoke(targs[1:]...)
+				err := ownInvoke(targs...)
 				simrt.Log("twin.done", fmt.Sprintf("%d err=%v", i, err))
 				if err != nil {
 					simrt.Hit("twin.failed")
